@@ -384,3 +384,36 @@ def run(ctx):
     _run_before_iter_rule(ctx)
     # ---- R17 bookkeeping containers are not resized while they are iterated ------------------------------------
     shared.no_mutation_while_iterating(ctx, "R17", ("base_interpreter", "interpreter", "sync_interpreter", "task_manager"), lambda t: any(k in t for k in ('actor', 'registry', '_system')))
+
+
+_run_before_r18 = run
+
+
+def run(ctx):
+    _run_before_r18(ctx)
+    # ---- R18 the parent link of an actor is set when the child is created or restored, to its owner, and never cut -------------------
+    # The actor-system registry lives on the root and every actor finds it by walking .parent upwards (_system_registry); sendParent,
+    # escalation and done/error reporting follow the same link.  An actor whose link is cleared or re-pointed while it (or its
+    # descendants) still has clean-up to do - unregistering systemIds on stop - does that clean-up against the wrong root.
+    from sa.effects import attr_writes as _aw
+    c, p = ctx.c, ctx.p
+    n = 0
+    seen = set()
+    for v in VIEWS:
+        for f in roles(ctx, v).all_funcs:
+            if f.qualname in seen:
+                continue
+            seen.add(f.qualname)
+            for w in _aw(f):
+                if w.attr != "parent" or w.base in ("self",) and f.name == "__init__":
+                    continue
+                if f.cls is None or f.cls.name not in ("BaseInterpreter", "Interpreter", "SyncInterpreter"):
+                    continue
+                val = getattr(w.node, "value", None)
+                n += 1
+                to_owner = val is not None and norm(val) in ("self", "interpreter", "cls_instance")
+                ok = w.op == "assign" and to_owner
+                c.ob("R18", ok, f, f"parent-link:{w.base}", "a child's parent link is set to the interpreter that creates / restores it" if ok else
+                     f"'{stmt_text(w.node)}' in {f.short} cuts or re-points an actor's parent link: the actor and its descendants then resolve the actor-system "
+                     f"registry, sendParent and escalation against the wrong root (systemIds of stopped descendants stay registered, late reports are lost)", w.node)
+    c.floor("R18", "writes of an actor's parent link", n, 3)
